@@ -8,7 +8,11 @@ import gen_grammar
 from common import Broken, coq_list, coq_nat, coq_string
 
 FILES = ["Base/Re.v", "Base/Grammar.v", "Model/ReplaceM.v", "Model/C01Case.v", "Model/EarleyM.v", "Model/C04Case.v",
-         "Proofs/C04.v", "Props/C04.v"]
+         "Model/SearchM.v", "Model/ConstraintM.v", "Model/C07Case.v", "Proofs/C04.v", "Props/C04.v"]
+API_HEADER = ("From Coq Require Import List String ZArith NArith Bool Arith.\n"
+              "From FV Require Import Base.Re Base.Grammar Model.ReplaceM Model.SearchM Model.ConstraintM Model.C07Case.\n"
+              "Import ListNotations.\nOpen Scope string_scope.\nOpen Scope list_scope.\n")
+API_T = "(tree * list constr * oracle)"
 HEADER = ("From Coq Require Import List String NArith Bool Arith.\n"
           "From FV Require Import Base.Re Base.Grammar Model.ReplaceM Model.C01Case Model.EarleyM Model.C04Case.\n"
           "Import ListNotations.\nOpen Scope string_scope.\nOpen Scope list_scope.\n")
@@ -169,6 +173,9 @@ def correspondence(res):
             raise Broken("property evaluation failed (case file)", repr(infos[i]))
         if v != 1 and len(res.violations) < 3:
             res.violation("a yielded tree is not a derivation of the grammar for exactly the input (derives_b / yield / helper symbols)", infos[i])
+    api_clause(res)
+    res.coverage["rule"] += (" Public API: Fandango.parse() on schema grammars with 1-3 generated constraints x words fuzzed from the bare grammar; every yielded "
+                             "tree must spell out the word and satisfy every constraint in the documented meaning (judged in Coq).")
     if bad:
         detail = dict(infos[bad[0]])
         try:
@@ -180,6 +187,90 @@ def correspondence(res):
 
 
 from props.c01 import split_top
+
+
+def api_worker(args):
+    """the public API: Fandango.parse() on specs with constraints; every yielded tree becomes a case for the constraint model"""
+    seed, n = args
+    import sys
+    sys.stderr = open("/dev/null", "w")
+    from fandango import Fandango
+    from fandango.constraints.repetition_bounds import RepetitionBoundsConstraint
+    from props import c02, c07
+    import c07lib as L
+    c07.quiet()
+    res = c07.MiniRes()
+    rng = random.Random(seed * 443 + 9)
+    terms, infos = [], []
+    for _ in range(n):
+        spec, nts, judge, texts = c02.make_spec(rng)
+        full = spec + "".join(f"where {t}\n" for t in texts)
+        try:
+            fan = Fandango(full)
+            ex = L.ConstraintExport()
+            irs = [ex.export(c) for c in fan.constraints if not isinstance(c, RepetitionBoundsConstraint)]
+            if judge:
+                fj = Fandango(spec + f"where {judge}\n")
+                irs += [ex.export(c) for c in fj.constraints if not isinstance(c, RepetitionBoundsConstraint)]
+        except Exception:
+            res.bump("api_spec_rejected")
+            continue
+        for _w in range(6):
+            random.seed(rng.randrange(1 << 30))
+            try:
+                word = str(fan.grammar.fuzz("<start>", max_nodes=rng.choice([5, 15, 30])))
+                if len(word) > 40:
+                    continue
+                trees = common.guarded(lambda: list(fan.parse(word)), 10)
+            except (Exception, common.ImplTimeout) as e:
+                res.bump("api_parse_raised_" + type(e).__name__)
+                continue
+            res.bump("api_words")
+            res.bump("api_words_accepted" if trees else "api_words_rejected")
+            for t in trees[:3]:
+                if str(t) != word:
+                    terms.append(None)
+                    infos.append({"spec": full, "word": word, "yielded": str(t), "problem": "the tree yielded by Fandango.parse() does not spell out the input"})
+                    continue
+                pt = L.PT(t)
+                table = {}
+                try:
+                    for ir in irs:
+                        L.collect(pt, ex.atoms, ir, {}, [], True, table)
+                        L.collect(pt, ex.atoms, ir, {}, [], False, table)
+                except Exception as e:
+                    res.bump("api_oracle_failed_" + type(e).__name__)
+                    continue
+                if len(table) > 400 or t.size() > 150:
+                    continue
+                terms.append(f"({export.export_tree(t)}, {coq_list([L.coq_constr(i) for i in irs])}, {L.coq_oracle(table)})")
+                infos.append({"spec": full, "judge_constraint_for_repetitions": judge, "word": word})
+                res.count(("api", full, word), nontrivial=True)
+    return (terms, infos), res.hist, res.counts, res.samples
+
+
+def api_clause(res):
+    from props import c02
+    W = 14
+    n = 56 if res.tier == "quick" else 1400
+    terms, infos = c02.parallel(res, api_worker, [(res.seed * 1000 + 700 + w, max(1, n // W)) for w in range(W)])
+    idx = [i for i, t in enumerate(terms) if t is not None]
+    codes = common.run_case_codes("C04", "api", API_HEADER, [terms[i] for i in idx], "c07_all_hold", chunk=80, ctype=API_T)
+    known, _ = common.load_known("C07")
+    sigs = {k["signature"] for k in known}
+    for i, t in enumerate(terms):
+        if t is None and len(res.violations) < 3:
+            res.violation(infos[i]["problem"], infos[i])
+    for i, v in zip(idx, codes):
+        if v == 1:
+            continue
+        if v == 2 and "desc-includes-base" in sigs:
+            res.known("desc-includes-base (see C07): a tree yielded by the API violates a constraint only in the documented reading of `..`")
+        elif v in (4, None):
+            raise Broken("API clause inconclusive (oracle entry missing / case file failed)", repr(infos[i]))
+        elif len(res.violations) < 3:
+            res.violation("Fandango.parse() yielded a tree that does not satisfy a constraint of its spec (documented meaning, judged in Coq)", infos[i])
+    res.coverage["api_trees_judged"] = len(codes)
 
 
 def search(res):
